@@ -5,6 +5,7 @@
 #include <cstdint>
 #include <cstring>
 #include <initializer_list>
+#include <iterator>
 #include <limits>
 #include <stdexcept>
 
@@ -1213,6 +1214,46 @@ class VectorImpl : public VectorDestr<T, Alloc, SizeType, WithInlineElements, Gr
   /// The behavior is undefined if either argument is an iterator into *this.
   template <class InputIt, typename std::enable_if<!std::is_integral<InputIt>::value, bool>::type = true>
   void assign(InputIt first, InputIt last) {
+    assign_range(first, last, typename std::iterator_traits<InputIt>::iterator_category());
+  }
+
+ private:
+  /// Single pass iterators: the range can be traversed only once, so its length cannot be computed first
+  template <class InputIt>
+  void assign_range(InputIt first, InputIt last, std::input_iterator_tag) {
+    clear();
+    for (; first != last; ++first) {
+      this->emplace_back(*first);
+    }
+  }
+
+  template <class InputIt>
+  iterator insert_range(const_iterator position, InputIt first, InputIt last, std::input_iterator_tag) {
+    assert(position >= this->cbegin() && position <= cend());
+    const SizeType idx = static_cast<SizeType>(position - this->begin());
+    const SizeType oldSize = this->size();
+    append_range(first, last, std::input_iterator_tag());
+    std::rotate(this->begin() + idx, this->begin() + oldSize, end());
+    return this->begin() + idx;
+  }
+
+  template <class InputIt>
+  void append_range(InputIt first, InputIt last, std::input_iterator_tag) {
+    const SizeType oldSize = this->size();
+    try {
+      for (; first != last; ++first) {
+        this->emplace_back(*first);
+      }
+    } catch (...) {
+      // same guarantee as for multi-pass ranges: the vector is left unchanged
+      amc::destroy_n(this->begin() + oldSize, this->size() - oldSize);
+      this->setSize(oldSize);
+      throw;
+    }
+  }
+
+  template <class ForwardIt>
+  void assign_range(ForwardIt first, ForwardIt last, std::forward_iterator_tag) {
     uintmax_t count = std::distance(first, last);
     if (static_cast<uintmax_t>(this->size()) < count) {
       this->adjustCapacity(count);
@@ -1224,6 +1265,7 @@ class VectorImpl : public VectorDestr<T, Alloc, SizeType, WithInlineElements, Gr
     this->setSize(static_cast<SizeType>(count));
   }
 
+ public:
   void assign(std::initializer_list<T> ilist) { assign(ilist.begin(), ilist.end()); }
 
   iterator insert(const_iterator position, const_reference v) {
@@ -1272,8 +1314,14 @@ class VectorImpl : public VectorDestr<T, Alloc, SizeType, WithInlineElements, Gr
   /// The behavior is undefined if first and last are iterators into *this
   template <class InputIt, typename std::enable_if<!std::is_integral<InputIt>::value, bool>::type = true>
   iterator insert(const_iterator position, InputIt first, InputIt last) {
+    return insert_range(position, first, last, typename std::iterator_traits<InputIt>::iterator_category());
+  }
+
+ private:
+  template <class ForwardIt>
+  iterator insert_range(const_iterator position, ForwardIt first, ForwardIt last, std::forward_iterator_tag) {
     assert(position >= this->cbegin() && position <= cend());
-    typename std::iterator_traits<InputIt>::difference_type count = std::distance(first, last);
+    typename std::iterator_traits<ForwardIt>::difference_type count = std::distance(first, last);
     iterator pos;
     if (count > 0) {
       pos = this->adjustCapacity(static_cast<uintmax_t>(this->size()) + count, position);
@@ -1291,6 +1339,13 @@ class VectorImpl : public VectorDestr<T, Alloc, SizeType, WithInlineElements, Gr
     return pos;
   }
 
+  template <class ForwardIt>
+  void append_range(ForwardIt first, ForwardIt last, std::forward_iterator_tag) {
+    this->adjustCapacity(static_cast<uintmax_t>(this->size()) + std::distance(first, last));
+    this->setSize(static_cast<SizeType>(amc::uninitialized_copy(first, last, end()) - this->begin()));
+  }
+
+ public:
   iterator insert(const_iterator pos, std::initializer_list<T> list) { return insert(pos, list.begin(), list.end()); }
 
   /// @brief Erases element at position in the vector. A 'large' SmallVector will not become small even if the size can
@@ -1365,8 +1420,7 @@ class VectorImpl : public VectorDestr<T, Alloc, SizeType, WithInlineElements, Gr
   /// The behavior is undefined if first and last are iterators into *this
   template <class InputIt, typename std::enable_if<!std::is_integral<InputIt>::value, bool>::type = true>
   void append(InputIt first, InputIt last) {
-    this->adjustCapacity(static_cast<uintmax_t>(this->size()) + std::distance(first, last));
-    this->setSize(static_cast<SizeType>(amc::uninitialized_copy(first, last, end()) - this->begin()));
+    append_range(first, last, typename std::iterator_traits<InputIt>::iterator_category());
   }
 
   void append(size_type count) {
